@@ -138,7 +138,7 @@ func consumerFields(c *core.Ctx) map[string]bool {
 }
 
 func C09(c *core.Ctx) {
-	c.Explanation("C09: for every sequence of a bounded family (all length-4 sequences over {A,C,G,T,N} against the reference TGCA, in batches of several records) the interpreted pipeline getLines -> updown.writeOutput (the CSV text it writes, split on commas) -> readCSVToUDLList / readCSVToUDLChan must reproduce the record getLines produced, on every field that the ranking code reads (the set of fields read is computed from the SSA of pkg/updown's consumers), including the query's input index; this decides the writer/reader schema agreement (header, column positions, '|' and '-' separators, a / a-b ranges, SNP position parsing) and the producer/consumer field agreement. The CSV header check and the empty-file check of both readers; FASTA paths: target conversion re-ordered by input index, query conversion not a pool, results stored by query index.")
+	c.Explanation("C09: for every sequence of a bounded family (all length-4 sequences over {A,C,G,T,N} against the references TGCA and GTAC, in batches of several records) the interpreted pipeline getLines -> updown.writeOutput (the CSV text it writes, split on commas) -> readCSVToUDLList / readCSVToUDLChan must reproduce the record getLines produced, on every field that the ranking code reads (the set of fields read is computed from the SSA of pkg/updown's consumers), including the query's input index; this decides the writer/reader schema agreement (header, column positions, '|' and '-' separators, a / a-b ranges, SNP position parsing) and the producer/consumer field agreement. The CSV header check and the empty-file check of both readers; FASTA paths: target conversion re-ordered by input index, query conversion not a pool, results stored by query index.")
 	checkSoftGapReaders(c, "R6", "pkg/updown")
 	if tabs := extractTables(c, newEval(c), "R0w"); tabs.OK {
 		checkWorkersStateless(c, "R7", tabs, "pkg/updown")
@@ -179,8 +179,6 @@ func c09Inputs(c *core.Ctx) {
 		}
 		return eval.NewSlice(vs...)
 	}
-	// the reference has a different base at every position, so that the lexical order of a record's
-	// SNP strings differs from their positional order for many records
 	seqs := allStringsExact("ACGTN", 4)
 	if c.Tier != "thorough" {
 		var s2 []string
@@ -191,81 +189,84 @@ func c09Inputs(c *core.Ctx) {
 		}
 		seqs = s2
 	}
-	ref := "TGCA"
+	// the first reference has a different base at every position in descending order (the positional order of a record's
+	// SNP strings is the exact reverse of their lexical order); the second one in an order that is neither
 	const batch = 6
 	var badList, badChan, badSchema []string
 	n := 0
-	for start := 0; start < len(seqs); start += batch {
-		end := start + batch
-		if end > len(seqs) {
-			end = len(seqs)
-		}
-		// 1. FASTA -> records
-		ev := newEval(c)
-		var feed []eval.Value
-		for i, s := range seqs[start:end] {
-			rec := absValue(recT, "r", eval.K(4)).(*eval.StructVal)
-			rec.F["ID"] = eval.S(fmt.Sprintf("s%d_%s", i, s))
-			rec.F["Idx"] = eval.K(int64(i))
-			rec.F["Seq"] = enc(s)
-			feed = append(feed, rec)
-		}
-		out := &eval.ChanVal{Name: "out"}
-		if _, err := ev.CallFunc(gl, enc(ref), &eval.ChanVal{Name: "in", Feed: feed}, out, &eval.ChanVal{Name: "err"}); err != nil {
-			c.Und("R2/round-trip", gl.Pos(), "cannot evaluate getLines: %v", err)
-			return
-		}
-		var fasta []*eval.StructVal
-		var wfeed []eval.Value
-		for _, e := range out.Sent {
-			fasta = append(fasta, e.(*eval.StructVal))
-			wfeed = append(wfeed, e)
-		}
-		// 2. records -> CSV text
-		ev2 := newEval(c)
-		text, errs, err := callWriter(c, ev2, wo, lineT, wfeed, nil)
-		if err != nil || len(errs.Sent) > 0 {
-			c.Und("R2/round-trip", wo.Pos(), "cannot evaluate the list writer: %v", err)
-			return
-		}
-		var recs [][]string
-		for _, l := range strings.Split(strings.TrimSuffix(text, "\n"), "\n") {
-			recs = append(recs, strings.Split(l, ","))
-		}
-		// 3. CSV -> records, both readers
-		for _, rd := range []string{"readCSVToUDLList", "readCSVToUDLChan"} {
-			n++
-			got, isErr, _, crash, und := runCSVReader(c, rd, recs)
-			bad := &badList
-			if rd == "readCSVToUDLChan" {
-				bad = &badChan
+	for _, ref := range []string{"TGCA", "GTAC"} {
+		for start := 0; start < len(seqs); start += batch {
+			end := start + batch
+			if end > len(seqs) {
+				end = len(seqs)
 			}
-			if und != "" || crash != "" {
-				*bad = append(*bad, "undecided: "+und+crash)
-				continue
+			// 1. FASTA -> records
+			ev := newEval(c)
+			var feed []eval.Value
+			for i, s := range seqs[start:end] {
+				rec := absValue(recT, "r", eval.K(4)).(*eval.StructVal)
+				rec.F["ID"] = eval.S(fmt.Sprintf("s%d_%s", i, s))
+				rec.F["Idx"] = eval.K(int64(i))
+				rec.F["Seq"] = enc(s)
+				feed = append(feed, rec)
 			}
-			if isErr {
-				badSchema = append(badSchema, fmt.Sprintf("%s rejects the list writer's own output %q", rd, firstN(text, 80)))
-				continue
+			out := &eval.ChanVal{Name: "out"}
+			if _, err := ev.CallFunc(gl, enc(ref), &eval.ChanVal{Name: "in", Feed: feed}, out, &eval.ChanVal{Name: "err"}); err != nil {
+				c.Und("R2/round-trip", gl.Pos(), "cannot evaluate getLines: %v", err)
+				return
 			}
-			if len(got) != len(fasta) {
-				*bad = append(*bad, fmt.Sprintf("%d records read back from %d written", len(got), len(fasta)))
-				continue
+			var fasta []*eval.StructVal
+			var wfeed []eval.Value
+			for _, e := range out.Sent {
+				fasta = append(fasta, e.(*eval.StructVal))
+				wfeed = append(wfeed, e)
 			}
-			for i := range fasta {
-				for _, f := range readList {
-					if f == "idx" && rd == "readCSVToUDLChan" {
-						continue // target order is arrival order in the CSV path; idx is used by the FASTA re-orderer only
-					}
-					a, b := eval.Show(fasta[i].F[f]), eval.Show(got[i].F[f])
-					if a != b {
-						*bad = append(*bad, fmt.Sprintf("record %d (%s): field %s is %s via FASTA but %s via CSV", i, seqs[start+i], f, a, b))
+			// 2. records -> CSV text
+			ev2 := newEval(c)
+			text, errs, err := callWriter(c, ev2, wo, lineT, wfeed, nil)
+			if err != nil || len(errs.Sent) > 0 {
+				c.Und("R2/round-trip", wo.Pos(), "cannot evaluate the list writer: %v", err)
+				return
+			}
+			var recs [][]string
+			for _, l := range strings.Split(strings.TrimSuffix(text, "\n"), "\n") {
+				recs = append(recs, strings.Split(l, ","))
+			}
+			// 3. CSV -> records, both readers
+			for _, rd := range []string{"readCSVToUDLList", "readCSVToUDLChan"} {
+				n++
+				got, isErr, _, crash, und := runCSVReader(c, rd, recs)
+				bad := &badList
+				if rd == "readCSVToUDLChan" {
+					bad = &badChan
+				}
+				if und != "" || crash != "" {
+					*bad = append(*bad, "undecided: "+und+crash)
+					continue
+				}
+				if isErr {
+					badSchema = append(badSchema, fmt.Sprintf("%s rejects the list writer's own output %q", rd, firstN(text, 80)))
+					continue
+				}
+				if len(got) != len(fasta) {
+					*bad = append(*bad, fmt.Sprintf("%d records read back from %d written", len(got), len(fasta)))
+					continue
+				}
+				for i := range fasta {
+					for _, f := range readList {
+						if f == "idx" && rd == "readCSVToUDLChan" {
+							continue // target order is arrival order in the CSV path; idx is used by the FASTA re-orderer only
+						}
+						a, b := eval.Show(fasta[i].F[f]), eval.Show(got[i].F[f])
+						if a != b {
+							*bad = append(*bad, fmt.Sprintf("record %d (%s, reference %s): field %s is %s via FASTA but %s via CSV", i, seqs[start+i], ref, f, a, b))
+						}
 					}
 				}
 			}
-		}
-		if len(badList)+len(badChan) > 30 {
-			break
+			if len(badList)+len(badChan) > 30 {
+				break
+			}
 		}
 	}
 	c.Count("round_trips_evaluated", n)
